@@ -92,6 +92,7 @@ structure St where
   prevDb : List (String × String) := []
   track : List (String × Track) := []
   pendingReqs : Option (List String × Nat) := none   -- model's wanted requests + room, awaiting the `reqs` line
+  implRetried : List String := []           -- requests that belong to the observations the implementation re-broadcast in the last tick
   -- counters
   lines : Nat := 0
   nPublish : Nat := 0
@@ -237,7 +238,10 @@ def step (st : St) (line : String) : St × List String :=
       let st := { st with pendingReqs := none }
       -- Go iterates the map in random order: which of the wanted requests got the free slots is not determined
       let subset := got.all fun g => wanted.contains g
+      let implWanted := st.implRetried
       if !subset then (st, [s!"spec {id} unexpected-reobservation-request cleanup posted {rs}, entries due for retry were {joinOr "|" wanted}"])
+      else if (got.filter fun g => implWanted.contains g).length < min room implWanted.length then
+        (st, [s!"spec {id} no-reobservation-request-when-due the tick re-broadcast {implWanted.length} own observation(s) with {room} free slot(s) in the request queue, but posted only {rs}: re-observation requests missing for {joinOr "|" (implWanted.filter fun w => !got.contains w)}"])
       else if got.length ≠ min room wanted.length then
         (st, [s!"diff {id} cleanup posted {got.length} re-observation requests, model {min room wanted.length} (room {room}, wanted {wanted.length})"])
       else (st, [s!"ok {id}"])
@@ -288,7 +292,8 @@ def step (st : St) (line : String) : St × List String :=
       let mres := Proc.step O st.cfg st.m ev
       if res = "panic" then
         let site := (kv rest "site").getD "?"
-        let clause := if (site.splitOn "nil_pointer").length > 1 then "panic-nil-dereference"
+        let clause := if site = "handler_blocked" ∧ op = "clean" then "cleanup-blocked-on-full-request-queue"
+                      else if (site.splitOn "nil_pointer").length > 1 then "panic-nil-dereference"
                       else if (site.splitOn "unmarshal_VAA_from_db").length > 1 then "panic-stored-vaa-undecodable"
                       else "panic-" ++ (site.take 40).toString
         ({ st with dead := true, nPanics := st.nPanics + 1 },
@@ -329,13 +334,22 @@ def step (st : St) (line : String) : St × List String :=
               if o.startsWith "O:" || o.startsWith "L:" then
                 match o.splitOn ":" with
                 | [_, a, h, _, _] =>
+                  let orec : List (String × String) := ((kv rest "orec").getD "-").splitOn ";" |>.filterMap fun e =>
+                    match e.splitOn "=" with | [sg, a] => some (sg, a) | _ => none
                   if h ≠ dig then some s!"spec {id} signed-digest-differs-from-message {op}: the node signed {h.take 16}… but the digest of the observed message is {dig.take 16}…"
+                  else if o.startsWith "O:" && (match orec.lookup ((o.splitOn ":").getD 3 "") with | some r => r ≠ toHex st.cfg.ourAddr | none => false) then
+                    some s!"spec {id} signed-digest-differs-from-message {op}: the broadcast observation names digest {dig.take 16}… but its signature does not recover to the node's key over that digest (it was made over something else)"
                   else if a ≠ toHex st.cfg.ourAddr then some s!"spec {id} signed-under-foreign-address {op}: observation broadcast under {a}"
                   else none
                 | _ => none
               else none
           else []
-        let govErr : List String := digErr ++ match ev with
+        -- C02 "its own included": a local observation that was signed and broadcast is also fed back into the node's own aggregation
+        let loopErr : List String :=
+          if (op = "msg" || op = "inj") && (outsOf iOut).any (·.startsWith "O:") && !(outsOf iOut).any (·.startsWith "L:") then
+            [s!"spec {id} own-observation-not-looped-back {op}: the node broadcast its signed observation but did not feed it back into its own aggregation"]
+          else []
+        let govErr : List String := digErr ++ loopErr ++ match ev with
           | .message m _ =>
             if m.emitter = st.cfg.govEmitter ∧ m.emitterChain = st.cfg.govChain ∧ iOut ≠ "-" then
               [s!"spec {id} governance-emitter-signed a chain message naming the governance emitter produced {iOut.take 80}"]
@@ -422,15 +436,25 @@ def step (st : St) (line : String) : St × List String :=
         let st := { st with prevSt := iSt, prevStS := if unobserved then "?" else iStS, prevDb := iDb }
         let specErrs := govErr ++ gateErr ++ pubErrs ++ complErr ++ cleanErrs
         -- ---------- model vs implementation ----------
-        if st.desync then (st, if specErrs.isEmpty then [] else specErrs.take 1) else
+        if st.desync then (st, if specErrs.isEmpty then [] else specErrs) else
         match mres with
         | .panic site =>
-          ({ st with dead := true }, if specErrs.isEmpty then [s!"diff {id} {op}: model panics ({site}), implementation does not"] else specErrs.take 1)
+          ({ st with dead := true }, if specErrs.isEmpty then [s!"diff {id} {op}: model panics ({site}), implementation does not"] else specErrs)
         | .ok ms mouts =>
           let (mNonReq, mReq) := mouts.partition fun o => match o with | .obsReq _ _ => false | _ => true
           let st := { st with m := ms }
           let st := if op = "clean" then { st with pendingReqs := some (mReq.map showOut, (kvNat rest "room").getD 0) } else st
-          if !specErrs.isEmpty then (st, specErrs.take 1)
+          -- C14 / C17: every own observation re-broadcast by this tick goes with a re-observation request for its transaction
+          let st := if op = "clean" then
+              { st with implRetried := (outsOf iOut).filterMap fun o =>
+                  match o.splitOn ":" with
+                  | ["O", _, h, _, tx] =>
+                    match st.bodies.find? (·.2 == h) with
+                    | some (body, _) => some s!"R:{unbe ((body.drop 8).take 2)}:{tx}"
+                    | none => none
+                  | _ => none }
+            else st
+          if !specErrs.isEmpty then (st, specErrs)
           else
             let v := if unobserved then
                 let mo := joinOr "|" (sortStrings (mNonReq.map showOut))
